@@ -1,6 +1,50 @@
-//! C09 — stub (to be written; see /verif/harness/AUTHORING.md and DESIGN.md §3 C09)
-use vengine::Property;
+//! C09 — k-means (linfa-clustering): nearest-centroid assignment, the m_k-means recurrence and its
+//! cost monotonicity, restarts, and the reported statistics.
+//!
+//! Sub-checks
+//! * `trajectory` — `Precomputed(C0)`, one run, budgets 1..=M+1: every budget's result is the
+//!   harness' own update applied to the previous budget's result (or bit-identical once the loop
+//!   stopped), L2 cost never rises, statistics of a run that no longer changes describe its centroids.
+//! * `restarts`   — `n_runs = 1..=r` from one seed against the r single runs re-created at the
+//!   measured RNG stream positions: minimum inertia, centroids and counts of the best run.
+//! * `assign`     — any initialiser/configuration: structure of the model, arg-min of `predict`
+//!   (batch and single row) and `transform` on training, fresh and adversarial points.
+//! * `large`      — the same on hundreds/thousands of rows (parallel assignment really splits).
+
+pub mod cases;
+pub mod checks;
+pub mod oracle;
+pub mod support;
+
+use vengine::{prop_sub, Property, Tier};
 
 pub fn property() -> Property {
-    Property { id: "C09", rule: "", assumptions: vec![], subs: vec![] }
+    Property {
+        id: "C09",
+        rule: "cases = (dataset: separated blobs | overlapping cloud | few distinct points repeated | integer lattice, n 1..=80 (200 thorough; 600/2000 in `large`), \
+               p 1..=4, f32|f64, coordinates scaled by 1, 2^10 or 2^-10; k 1..=min(n,6); metric L2|L1|Linf; init Random|KMeans++|KMeans|||Precomputed (data rows with repeats, \
+               free values possibly outside the data, half-integer offsets); budget 1..=12 or 300; tolerance never|1e-4|1e-1; n_runs 1..=4; seed; fresh queries). \
+               Non-trivial: trajectory = at least two Lloyd steps that change the assignment, or an exact tie in an assignment step, or duplicate points; \
+               restarts = n_runs >= 2 and the single runs end in different centroids, or duplicate points; \
+               assign/large = an exactly tied query, duplicate points, or at least two clusters used by the training points. \
+               distinct = distinct canonical JSON of the case",
+        assumptions: vec![
+            "k <= n (documented precondition of the random initialiser); no NaN/inf inputs; p >= 1".into(),
+            "reduced distances recomputed in f64 from the exact element values; a linfa value may deviate by 64 eps (relative, eps of the element type) + 16 min_positive: all terms are non-negative, p <= 4".into(),
+            "an index returned by predict is accepted when its reduced distance is within that tolerance of the minimum; on an exact tie (equal in f64 and in the element type) the lowest index is required, as the strict `<` scan of closest_centroid gives".into(),
+            "trajectory: expected centroid = (sum of assigned points + previous centroid)/(count+1) in f64, tolerance (n+64) eps scale per coordinate; a step in which some point is nearly (not exactly) tied is not judged".into(),
+            "stopping rule modelled by evaluating distance(old,new) in the element type: < tolerance/2 must stop, > 2 tolerance must continue, in between either; tolerance 'never' = 1e-300 (f64) / 1e-38 (f32)".into(),
+            "cost monotonicity is asserted for L2 only (theorem for the mean update), allowed rise 4 sqrt(n cost) d + 2 n d^2 + 1e-12 cost with d = (n+64) eps scale sqrt(p)".into(),
+            "bounding box slack (2n+8) eps scale (steady-state rounding excursion of a convex combination), box = data, plus the precomputed start when it lies outside".into(),
+            "statistics are judged only for runs shown converged (identical centroids for budgets m and m+1 of the same deterministic run): counts must contain every point whose nearest centroid is clear by more than 2 tolerance, inertia within mean(tolerance (2 d_i + tolerance)) (L2) or tolerance (L1/Linf) of the mean minimal reduced distance".into(),
+            "restarts: Random, KMeans++ and Precomputed consume the caller's RNG as a prefix-stable stream (measured with a counting wrapper around Xoshiro256+; cases where that does not hold are skipped); KMeans|| is excluded (per-thread streams)".into(),
+            "trusted: ndarray, rand/rand_xoshiro, the harness' naive reference code".into(),
+        ],
+        subs: vec![
+            prop_sub("trajectory", 12000, 160000, |t: Tier| cases::trajectory_case(t), checks::check_trajectory).chunks(16),
+            prop_sub("restarts", 8000, 100000, |t: Tier| cases::restarts_case(t), checks::check_restarts).chunks(16),
+            prop_sub("assign", 16000, 200000, |t: Tier| cases::assign_case(t), checks::check_assign).chunks(16),
+            prop_sub("large", 32, 200, |t: Tier| cases::large_case(t), checks::check_large).chunks(8),
+        ],
+    }
 }
